@@ -21,6 +21,7 @@ import (
 type condFormResult struct {
 	Atoms []string          // sorted atom names seen
 	Table map[string]string // valuation (e.g. "A=1,B=0") -> outcome label
+	Vals  map[string]map[string]bool
 }
 
 func condForm(fn *ssa.Function, startBlock *ssa.BasicBlock, startIdx int,
@@ -104,7 +105,7 @@ func condFormWith(fn *ssa.Function, startBlock *ssa.BasicBlock, startIdx int,
 	if len(atoms) > maxAtoms {
 		return nil, fmt.Errorf("region has %d atoms (> %d): %v", len(atoms), maxAtoms, atoms)
 	}
-	res := &condFormResult{Atoms: atoms, Table: map[string]string{}}
+	res := &condFormResult{Atoms: atoms, Table: map[string]string{}, Vals: map[string]map[string]bool{}}
 	for mask := 0; mask < 1<<len(atoms); mask++ {
 		val := map[string]bool{}
 		var parts []string
@@ -190,6 +191,7 @@ func condFormWith(fn *ssa.Function, startBlock *ssa.BasicBlock, startIdx int,
 			b, idx = b.Succs[next], 0
 		}
 		res.Table[strings.Join(parts, ",")] = label
+		res.Vals[strings.Join(parts, ",")] = val
 	}
 	return res, nil
 }
@@ -210,13 +212,14 @@ func (r *condFormResult) compare(want func(val map[string]bool) string) []string
 	}
 	sort.Strings(keys)
 	for _, k := range keys {
-		val := map[string]bool{}
-		for _, p := range strings.Split(k, ",") {
-			if p == "" {
-				continue
+		val := r.Vals[k]
+		if val == nil {
+			val = map[string]bool{}
+			for _, p := range strings.Split(k, ",") {
+				if i := strings.LastIndex(p, "="); i > 0 {
+					val[p[:i]] = p[i+1:] == "1"
+				}
 			}
-			kv := strings.SplitN(p, "=", 2)
-			val[kv[0]] = kv[1] == "1"
 		}
 		if w := want(val); w != r.Table[k] {
 			diffs = append(diffs, fmt.Sprintf("under {%s} the code does %q, the property requires %q", k, r.Table[k], w))
